@@ -64,6 +64,8 @@ def run(item, ctx, tier, seed):
     else:
         pos, neg, vals = ot.concretise(blocks, item["grid"], seed)
     T = ot.threshold_alphabet(vals)
+    if item["grid"] in ("int", "mixed"):
+        T = T + ot.INT_SENTINELS
     Tarr = np.array(T)
     both = bool(pos) and bool(neg)
     anytie = any(a + c > 1 for a, c in blocks)
@@ -304,6 +306,22 @@ def run(item, ctx, tier, seed):
                             ctx.fail("group-swap-mirrors-matrix", case, observed=mb, expected=ma[:, ::-1, ::-1])
                         if not np.array_equal(gb, ga[..., ::-1, ::-1]):
                             ctx.fail("group-swap-mirrors-group-matrices", case, observed=gb, expected=ga[..., ::-1, ::-1])
+                # the groups were materialised on the original above (group_cm): a *second* swap, taken now, must mirror as well,
+                # and so must the per-group objects and rates
+                ok, gs2 = guarded(ctx, "group-swap", case, g.swap)
+                if ok:
+                    c2 = dict(case, history="group_cm / indexing on the original first, then swap()")
+                    ok, (ga2, gb2) = guarded(ctx, "group-swap-cm", c2, lambda: (g.group_cm(Tarr).matrix, gs2.group_cm(Tarr).matrix))
+                    ctx.tick(len(T))
+                    if ok and not np.array_equal(gb2, ga2[..., ::-1, ::-1]):
+                        ctx.fail("group-swap-mirrors-group-matrices", c2, observed=gb2, expected=ga2[..., ::-1, ::-1])
+                    for gname in sorted(set(pg) | set(ng)):
+                        ok, (ra, rb) = guarded(ctx, "group-swap-rates", dict(c2, group=gname), lambda: (
+                            np.asarray(g[gname].fpr(Tarr), dtype=float), np.asarray(gs2[gname].fnr(Tarr), dtype=float)))
+                        ctx.tick()
+                        if ok and not np.array_equal(ra, rb, equal_nan=True):
+                            ctx.fail("swap-exchanges-rates", dict(c2, group=gname, metric="fpr", swapped_metric="fnr"), observed=rb, expected=ra)
+                            break
     ctx.sample({"blocks": item["blocks"], "grid": item["grid"], "pos": pos, "neg": neg, "affine": b["affine"]})
 
 
